@@ -622,6 +622,10 @@ def c19(ctx):
     opwv(ctx, ["replay", "yaml", ctx.path("yaml.ndjson"), ctx.path("yaml.out")], env_extra={"VERIF_TMP": ctx.work})
     st = replay_results(ctx, ctx.path("yaml.out"), "C19")
     ctx.evaluations += st.get("evaluations", 0)
+    # a second process reads the same variants in the opposite order (the meaning of a file is its own)
+    opwv(ctx, ["replay", "yaml", ctx.path("yaml.ndjson"), ctx.path("yaml2.out")], env_extra={"VERIF_TMP": ctx.work, "VERIF_ORDER": "reverse"})
+    st2 = replay_results(ctx, ctx.path("yaml2.out"), "C19")
+    ctx.evaluations += st2.get("evaluations", 0)
     ctx.traces += len(lines)
     for ln in lines:
         ctx.nontrivial.add(json.dumps(ln, sort_keys=True))
